@@ -21,6 +21,7 @@ META = {
                     "(matrix 4 + fracture 2 dofs) and lam (4 dofs) on a fractured 2x2 md-grid"],
     "stubs": ["sparse products on symbolic data -> SymSparse", "sha256 of symbolic leaf data"],
     "outside": ["other equation systems / grids"],
+    "second_system": "two equations on the 4 subdomains of a 2-fracture md-grid (9 dofs), the first restricted to every subset of its grids",
 }
 
 FULL_ROWS = {"E1": list(range(0, 6)), "E2": list(range(6, 10)), "E3": list(range(10, 14))}
@@ -51,7 +52,12 @@ def shards(tier, seed):
     if tier == "quick":
         work = work[::3]
     k = 8 if tier == "quick" else 16
-    return [{"work": work[i::k]} for i in range(k)]
+    out = [{"work": work[i::k]} for i in range(k)]
+    # second system: one equation on the four subdomains of a 2-fracture md-grid, restricted to every
+    # subset of its grids (contiguous or not in the md-grid ordering), in two argument orders
+    subsets = [list(c) for r in range(1, 5) for c in itertools.combinations(range(4), r)]
+    out.append({"gridsets": subsets})
+    return out
 
 
 def configure(cfg, tier):
@@ -140,8 +146,80 @@ def harness(ctx, si, vi):
         ctx.sample({"equations": str(sel), "variables": vsub, "rows": R, "cols": cols})
 
 
+_ENV2 = {}
+
+
+def _system2(c, state=None):
+    import porepy as pp
+
+    if not _ENV2:
+        mdg, _ = pp.mdg_library.square_with_orthogonal_fractures("cartesian", {"cell_size": 0.5}, fracture_indices=[0, 1])
+        _ENV2["mdg"] = mdg
+    mdg = _ENV2["mdg"]
+    _eqsys.reset_data(mdg)
+    es = pp.ad.EquationSystem(mdg)
+    sds = mdg.subdomains()
+    x = es.create_variables("x", subdomains=sds)
+    e = pp.ad.DenseArray(c) * x * x + x
+    e.set_name("E")
+    es.set_equation(e, sds, {"cells": 1})
+    e2 = x * pp.ad.Scalar(3.0) - pp.ad.DenseArray(c)
+    e2.set_name("F")
+    es.set_equation(e2, sds, {"cells": 1})
+    return es, sds
+
+
+def h_gridsets(ctx, subset):
+    import porepy as pp  # noqa: F401
+
+    nd = 9
+    c = ctx.reals("c", nd, -2, 2)
+    st = ctx.reals("s", nd, -2, 2)
+    es, sds = _system2(c)
+    inputs = {"c": c, "s": st, "subset": subset}
+
+    def case(conc):
+        cc = conc(inputs)
+        return {"gridset": subset, "c": np.asarray(cc["c"]).tolist(), "s": np.asarray(cc["s"]).tolist()}
+
+    ctx.check("system-size", es.num_dofs() == nd, case)
+    Jf, bf = es.assemble(state=st)
+    full_idx = {k: list(map(int, v)) for k, v in es.assembled_equation_indices.items()}
+    Jf, bf = dense(Jf), np.asarray(bf, dtype=object)
+    offs = np.concatenate([[0], np.cumsum([g.num_cells for g in sds])]).astype(int)
+    rows_e = [int(r) for k in sorted(subset) for r in range(offs[k], offs[k + 1])]
+    for order in (subset, subset[::-1]):
+        grids = [sds[k] for k in order]
+        for eqs, exp_rows in (({"E": grids}, [full_idx["E"][r] for r in rows_e]),
+                              ({"F": list(sds), "E": grids}, [full_idx["E"][r] for r in rows_e] + full_idx["F"])):
+            Jr, br = es.assemble(equations=eqs, state=st)
+            got = {k: list(map(int, v)) for k, v in es.assembled_equation_indices.items()}
+            b_only = es.assemble(evaluate_jacobian=False, equations=eqs, state=st)
+            Jr, br, b_only = dense(Jr), np.asarray(br, dtype=object), np.asarray(b_only, dtype=object)
+            exp_idx = {"E": list(range(len(rows_e)))}
+            if "F" in eqs:
+                exp_idx["F"] = list(range(len(rows_e), len(rows_e) + nd))
+            ctx.check("reported-row-indices", got == exp_idx, case)
+            ok = Jr.shape == (len(exp_rows), nd) and br.shape == (len(exp_rows),) and b_only.shape == (len(exp_rows),)
+            ctx.check("shape", bool(ok), case)
+            if ok:
+                for a, r in enumerate(exp_rows):
+                    ctx.check("residual-rows", lift(br[a]) == lift(bf[r]), case)
+                    ctx.check("residual-only-assembly", lift(b_only[a]) == lift(bf[r]), case)
+                    ctx.check("jacobian-slice", z3.And([lift(Jr[a, j]) == lift(Jf[r, j]) for j in range(nd)]), case)
+    m = ctx.reach("end")
+    if m is not None:
+        ctx.validate_replay("float-run", case, model=m)
+    if len(subset) == 2:
+        ctx.sample({"gridset": subset})
+
+
 def run_shard(ex, shard):
     _eqsys.mdg_env()
+    if "gridsets" in shard:
+        for subset in shard["gridsets"]:
+            ex.run(h_gridsets, label=f"gridset{subset}", args=(subset,))
+        return
     for si, vi in shard["work"]:
         ex.run(harness, label=f"sel{si}/var{vi}", args=(si, vi))
 
@@ -154,6 +232,24 @@ def concrete_run(case):
 
 
 def replay_case(case):
+    if "gridset" in case:
+        subset = case["gridset"]
+        c, st = np.array(case["c"], dtype=float), np.array(case["s"], dtype=float)
+        es, sds = _system2(c)
+        Jf, bf = es.assemble(state=st)
+        full_idx = {k: list(map(int, v)) for k, v in es.assembled_equation_indices.items()}
+        Jf = Jf.toarray()
+        offs = np.concatenate([[0], np.cumsum([g.num_cells for g in sds])]).astype(int)
+        rows_e = [full_idx["E"][int(r)] for k in sorted(subset) for r in range(offs[k], offs[k + 1])]
+        for order in (subset, subset[::-1]):
+            Jr, br = es.assemble(equations={"E": [sds[k] for k in order]}, state=st)
+            got = list(map(int, es.assembled_equation_indices["E"]))
+            b_only = es.assemble(evaluate_jacobian=False, equations={"E": [sds[k] for k in order]}, state=st)
+            if Jr.shape != (len(rows_e), Jf.shape[1]) or got != list(range(len(rows_e))):
+                return True, f"equation restricted to grids {order}: Jacobian shape {Jr.shape}, reported rows {got}; expected {len(rows_e)} rows"
+            if not np.allclose(Jr.toarray(), Jf[rows_e]) or not np.allclose(br, bf[rows_e]) or not np.allclose(b_only, bf[rows_e]):
+                return True, f"equation restricted to grids {order}: not the slice {rows_e} of the full system"
+        return False, "slice"
     coef = {k: np.array(v, dtype=float) for k, v in case["coef"].items()}
     env = _eqsys.build_system(coef)
     es = env["es"]
